@@ -408,6 +408,37 @@ def run_dispose(res, ast):
         saves = [s for s in seq if s[0] == "save"]
         resets = [s for s in seq if s[0] == "reset"]
         okp = len(saves) == 1 and len(resets) == 1 and saves[0][1] < resets[0][1] < lp["sp"][0] and resets[0][2] == first
+        if okp and first == 1:
+            # dedup keeps the first element unconditionally: that is only right when there is one
+            import pm
+            from iolim import parents as _parents
+            par_ = _parents(f["node"])
+            reset_node = [n for n in walk_t(body, "Assign") if size_of(n["left"]) == "self"][0]
+
+            def nonempty_cond(c_, truth):
+                c_ = strip_paren(c_)
+                for pat, t_ in (("self.size != 0", True), ("self.size > 0", True), ("self.size >= 1", True), ("self.size == 0", False), ("self.size < 1", False),
+                                ("!self.is_empty()", True), ("self.is_empty()", False), (f"{sname} != 0", True), (f"{sname} > 0", True), (f"{sname} >= 1", True),
+                                (f"{sname} == 0", False), (f"{sname} < 1", False), (f"{sname} > 1", True), (f"{sname} >= 2", True), ("self.size > 1", True), ("self.size as usize > 1", True),
+                                ("self.size as usize != 0", True), ("self.size as usize > 0", True), ("self.size as usize == 0", False)):
+                    if pm.match_expr(c_, pat) is not None:
+                        return t_ == truth
+                return False
+            guarded = False
+            cur = reset_node
+            while id(cur) in par_ and not guarded:
+                pn, k = par_[id(cur)]
+                if pn["t"] == "If" and k in ("then", "else") and strip_paren(pn["cond"])["t"] != "Let":
+                    guarded = nonempty_cond(pn["cond"], k == "then")
+                if pn["t"] == "Block":
+                    idx = next((j for j, s_ in enumerate(pn["stmts"]) if s_ is cur), None)
+                    for s_ in pn["stmts"][:idx or 0]:
+                        x = s_.get("expr") if s_["t"] == "ExprStmt" else None
+                        if isinstance(x, dict) and x.get("t") == "If" and x.get("else") is None and _diverges(x["then"]) and nonempty_cond(x["cond"], False):
+                            guarded = True
+                cur = pn
+            res.check(guarded, "SV-DISPOSE", key0 + "|nonempty", w,
+                      f"{name}: `self.size = 1` (the first element is kept) must only happen when the vector is not empty; an empty vector would gain an uninitialised element")
         res.check(okp, "SV-DISPOSE", key0 + "|prologue", w,
                   f"{name}: expected the old length to be saved (`let n = self.size`) and then `self.size = {first}` before the loop; found {seq}")
         try:
